@@ -33,6 +33,32 @@ def check(repo, col, tier):
     _split(repo, col)
     _stale(repo, col)
     _forms(repo, col)
+    _clamps(repo, col)
+
+
+def _clamps(repo, col, R="R-C16-forms"):
+    """`x[x < t] = v` in the SWC helpers: raising the values below a threshold t to the threshold itself is continuous (a guard
+    against division by zero); raising them to another value v changes every value below t by a jump -- e.g. a zero-length
+    traced segment would suddenly take up 1 um of its section in the radius interpolation."""
+    n = 0
+    for name in ("_radius_generating_fn", "_radius_generating_fns", "_compute_pathlengths", "build_radiuses_from_xyzr"):
+        try:
+            fi = repo.func(CU, name)
+        except Exception:
+            continue
+        ex = idx.expander(repo, fi)
+        for s_ in ex.stores:
+            if s_.kind == "sub" and s_.key.op == "cmp" and s_.key.name in ("<", "<=") and s_.value is not None and \
+                    s_.key.args[0].key() == s_.base.key():
+                thr, val = s_.key.args[1], s_.value
+                n += 1
+                col.check(thr.key() == val.key(), R, fi, f"{name}: values below a threshold are raised to that threshold",
+                          f"x[x < {thr.short(20)}] = {val.short(20)}",
+                          f"`{unparse(s_.node)[:60]}` raises every value below {thr.short(20)} to {val.short(20)}: the clamp is not "
+                          f"continuous, so (for the segment lengths) a zero-length traced segment takes up {val.short(12)} um of its "
+                          f"section and shifts the interpolated radius profile", node=s_.node)
+    if n < 2:
+        raise AnalysisError(f"only {n} lower clamps found in the SWC helpers")
 
 
 # --------------------------------------------------------------------------------------
@@ -498,6 +524,16 @@ def _pathlengths(repo, col):
             if k is not None and x.args[0].op == "mcall" and x.args[0].name == "diff":
                 diffs.append(x.args[0])
                 return Rat.atom(f"d{k}")
+            # dx, dy, dz = np.diff(X[:, a:b], axis=0).T  ->  component k is column a + k
+            if x.op == "item" and isinstance(x.name, int) and x.args[0].op == "attr" and x.args[0].name == "T" and \
+                    x.args[0].args[0].op == "mcall" and x.args[0].args[0].name == "diff":
+                d = x.args[0].args[0]
+                src = d.args[1] if len(d.args) > 1 else None
+                if src is not None and src.op == "sub" and src.args[1].op == "tuple" and len(src.args[1].args) == 2 and \
+                        src.args[1].args[1].op == "slice" and src.args[1].args[1].args[0].op == "const" and \
+                        isinstance(src.args[1].args[1].args[0].name, int):
+                    diffs.append(d)
+                    return Rat.atom(f"d{src.args[1].args[1].args[0].name + x.name}")
             return None
         try:
             form = term_rat(sq.args[1], leaf)
